@@ -49,7 +49,8 @@ func (f *Footer) Encode() ([]byte, error) {
 	if w.Error() != nil {
 		return nil, w.Error()
 	}
-	return buf.Bytes(), nil
+	// copy: the pooled buffer is reused as soon as this function returns
+	return bytes.Clone(buf.Bytes()), nil
 }
 
 func (f *Footer) Decode(footer []byte) error {
